@@ -339,6 +339,125 @@ fn check_script(c: &ScriptCase, cov: &mut Cov) -> CheckResult {
 }
 
 // ---------------------------------------------------------------------------------------------
+// one chain object, a history of scripted steps applied through its public fields
+// (current_state / target / proposal / rng are documented as user-modifiable)
+// ---------------------------------------------------------------------------------------------
+
+#[derive(Debug, Clone, Serialize, Deserialize)]
+pub struct HistCase {
+    pub f32: bool,
+    pub steps: Vec<ScriptCase>,
+    /// per step: overwrite current_state with the scripted x (true) or continue from wherever
+    /// the chain is (false)
+    pub reposition: Vec<bool>,
+}
+
+fn hist_strategy() -> BoxedStrategy<HistCase> {
+    bx((any::<bool>(), proptest::collection::vec((script_strategy(), any::<bool>()), 2..6)).prop_map(|(f32, v)| {
+        let (steps, reposition) = v.into_iter().unzip();
+        HistCase { f32, steps, reposition }
+    }))
+}
+
+fn hist_generic<F: Fl>(c: &HistCase, cov: &mut Cov) -> CheckResult
+where
+    rand_distr::StandardUniform: rand_distr::Distribution<F>,
+{
+    let kmax = (1u64 << F::BITS) - 1;
+    let mk = |sc: &ScriptCase, x: Vec<f64>| {
+        let mut y: Vec<f64> = sc.y.iter().map(|r| r.0).collect();
+        y.truncate(x.len());
+        while y.len() < x.len() {
+            y.push(1.0);
+        }
+        (x, y)
+    };
+    let first_x: Vec<f64> = c.steps[0].x.iter().map(|r| if r.0.is_nan() { 0.5 } else { r.0 }).collect();
+    let (x0, y0) = mk(&c.steps[0], first_x.clone());
+    let mut chain: MHMarkovChain<f64, F, STarget<f64, F>, SProposal<f64, F>> = MHMarkovChain::new(
+        STarget { x: x0.clone(), lp_x: F::zero(), lp_y: F::zero() },
+        SProposal { x: x0.clone(), y: y0, q_xy: F::zero(), q_yx: F::zero() },
+        x0,
+    );
+    let mut any_nontrivial = false;
+    for (i, sc) in c.steps.iter().enumerate() {
+        // the state this step starts from
+        let x: Vec<f64> = if c.reposition[i] {
+            let mut v: Vec<f64> = sc.x.iter().map(|r| if r.0.is_nan() { 0.25 } else { r.0 }).collect();
+            v.resize(first_x.len(), 0.0);
+            chain.current_state = v.clone();
+            v
+        } else {
+            chain.current_state.clone()
+        };
+        let (x, y) = mk(sc, x);
+        if same_bits(&x, &y) {
+            continue;
+        }
+        let (lp_x, lp_y, q_xy, q_yx) = (F::of(sc.lp_x.0), F::of(sc.lp_y.0), F::of(sc.q_xy.0), F::of(sc.q_yx.0));
+        chain.target = STarget { x: x.clone(), lp_x, lp_y };
+        chain.proposal = SProposal { x: x.clone(), y: y.clone(), q_xy, q_yx };
+        let k = match sc.usel {
+            1 => 0,
+            3 => kmax,
+            4 | 5 => {
+                let ratio = ((lp_y + q_yx) - (lp_x + q_xy)).f();
+                let kb = (ratio.exp() * F::den()).floor();
+                if kb.is_finite() && kb >= 0.0 && kb <= kmax as f64 {
+                    (kb as i64 + sc.kdelta as i64).clamp(0, kmax as i64) as u64
+                } else {
+                    sc.kraw & kmax
+                }
+            }
+            _ => sc.kraw & kmax,
+        };
+        let u = F::of(k as f64 / F::den());
+        chain.rng = F::crafted(k, sc.salt);
+        let ret = no_panic(|| chain.step().clone()).map_err(|m| Fail::new("mh-step-panic", format!("step panicked: {m}")))?;
+        let (at_x, at_y) = (same_bits(&ret, &x), same_bits(&ret, &y));
+        ensure!(at_x || at_y, "state-neither", "history step {i}: state {:?} is neither x {:?} nor y {:?}", ret, x, y);
+        let (accept, decided) = decide(lp_x, lp_y, q_xy, q_yx, u);
+        if !decided {
+            cov.ambiguous();
+            continue;
+        }
+        if (if accept { at_y } else { at_x }) == false {
+            return Err(Fail::new(
+                "acceptance-rule history",
+                format!(
+                    "history step {i} (state {}): lp_x={:?} lp_y={:?} q(y|x)={:?} q(x|y)={:?} u={:?}: rule says {}, chain went to {}",
+                    if c.reposition[i] { "overwritten by the caller" } else { "carried over" },
+                    lp_x,
+                    lp_y,
+                    q_xy,
+                    q_yx,
+                    u,
+                    if accept { "accept" } else { "reject" },
+                    if at_y { "y" } else { "x" }
+                ),
+            ));
+        }
+        cov.evals(1);
+        cov.class(if c.reposition[i] { "repositioned-by-caller" } else { "carried-over" });
+        if i > 0 {
+            any_nontrivial = true;
+        }
+    }
+    if any_nontrivial {
+        cov.nontrivial_u64(fingerprint(c));
+    }
+    Ok(())
+}
+
+fn check_hist(c: &HistCase, cov: &mut Cov) -> CheckResult {
+    if c.f32 {
+        hist_generic::<f32>(c, cov)
+    } else {
+        hist_generic::<f64>(c, cov)
+    }
+}
+
+// ---------------------------------------------------------------------------------------------
 // library proposal + library target, multi-step histories
 // ---------------------------------------------------------------------------------------------
 
@@ -688,6 +807,7 @@ pub fn run(ctx: &mut Ctx) {
     ctx.assume("decision compared only when the stated grouping in F, the alternative association in F and an f64 evaluation agree (otherwise counted ambiguous; old-or-new state still checked)");
     let t = ctx.tier;
     ctx.section("scripted", "one step on scripted target/proposal with injected u: accept <=> ln u < ratio; state bitwise x or y; return value", t.pick(200_000, 20_000_000), 16, script_strategy, check_script);
+    ctx.section("scripted-history", "one chain object driven through 2..5 scripted steps; target, proposal, generator and (sometimes) current_state are overwritten through the public fields between steps", t.pick(40_000, 4_000_000), 16, hist_strategy, check_hist);
     ctx.section("library-proposal", "IsotropicGaussian + Gaussian2D, candidate learnt from a clone of the chain's proposal, 1..5 steps incl. steps after a rejection", t.pick(20_000, 2_000_000), 16, lib_strategy, check_lib);
     ctx.section("finite-kernel", "exact acceptance probability of the real step() by bisection over the representable u; = min(1, pi(y)Q(y,x)/pi(x)Q(x,y)); detailed balance; pi P = pi", t.pick(400, 40_000), 16, kernel_strategy, check_kernel);
 }
